@@ -106,7 +106,7 @@ Definition no_common_in (s : store) (l : list N) (lo hi : Z) : Prop :=
 Definition lockstep_ok (s : store) (l : list N) (k : Z) (res : cres) : Prop :=
   match res with
   | COk r => common s l r /\ height r <= k /\ (forall r', common s l r' -> height r' <= k -> height r' <= height r)
-  | CPanic => False
+  | CPanic | CBind => False
   | _ => no_common_in s l 0 k
   end.
 
@@ -145,12 +145,13 @@ Proof.
           split; [exact HRt|]. split; [apply (reach_snoc s t c p Hrc Hp)|].
           pose proof (HRt c p Hrc Hp). lia. }
         pose proof (IH (k - 1) nxt ltac:(lia) HF') as Hres.
-        destruct (lockstep n s nxt) as [r| | | |]; cbn in Hres |- *.
+        destruct (lockstep n s nxt) as [r| | | | |]; cbn in Hres |- *.
         -- destruct Hres as (H1 & H2 & H3). split; [exact H1|]. split; [lia|].
            intros r' Hr' Hle. apply H3; [exact Hr'|]. pose proof (Hnok r' Hr'). lia.
         -- intros (r & Hr & Hh). apply Hres. exists r. split; [exact Hr|]. pose proof (Hnok r Hr). lia.
         -- intros (r & Hr & Hh). apply Hres. exists r. split; [exact Hr|]. pose proof (Hnok r Hr). lia.
         -- intros (r & Hr & Hh). apply Hres. exists r. split; [exact Hr|]. pose proof (Hnok r Hr). lia.
+        -- exact Hres.
         -- exact Hres.
       * (* some current row has no stored parent: nothing common below either *)
         cbn. intros (r & Hr & Hh).
@@ -168,7 +169,7 @@ Qed.
 Definition common_answer_ok (s : store) (l : list N) (mh : Z) (res : cres) : Prop :=
   match res with
   | COk r => common s l r /\ height r < mh /\ (forall r', common s l r' -> height r' < mh -> height r' <= height r)
-  | CPanic => False
+  | CPanic | CBind => False
   | _ => ~ exists r, common s l r /\ height r < mh
   end.
 
@@ -195,11 +196,12 @@ Proof.
         intros t r c (Ht & E) Hc. destruct (by_hash_in _ _ _ E) as [_ Hid]. rewrite Hid in Hc.
         destruct (aoh_sound s t _ c Hc) as [H1 H2]. split; [apply HR; exact Ht| split; assumption]. }
       pose proof (lockstep_spec s l Hnd Hne (Z.to_nat (mh - 1 + 1)) (mh - 1) cur ltac:(lia) HF) as Hres.
-      destruct (lockstep (Z.to_nat (mh - 1 + 1)) s cur) as [r| | | |]; cbn in Hres |- *.
+      destruct (lockstep (Z.to_nat (mh - 1 + 1)) s cur) as [r| | | | |]; cbn in Hres |- *.
       * destruct Hres as (H1 & H2 & H3). split; [exact H1|]. split; [lia|]. intros r' Hr' Hlt. apply H3; [exact Hr'| lia].
       * intros (r & Hr & Hh). apply Hres. exists r. split; [exact Hr|]. pose proof (Hnonneg r Hr). lia.
       * intros (r & Hr & Hh). apply Hres. exists r. split; [exact Hr|]. pose proof (Hnonneg r Hr). lia.
       * intros (r & Hr & Hh). apply Hres. exists r. split; [exact Hr|]. pose proof (Hnonneg r Hr). lia.
+      * exact Hres.
       * exact Hres.
     + (* some header has no ancestor of height mh-1: nothing common below mh *)
       cbn. intros (r & Hr & Hh).
@@ -246,7 +248,7 @@ Proof.
   assert (HR: forall t, In t l -> regular s t).
   { intros t Ht. destruct (Forall2_in_l _ _ _ t Hhs Ht) as (r & _ & E & Ho). apply (connected_regular s t r Hwf E Ho). }
   pose proof (common_ancestor_spec s l hs HV Hne HR Hhs') as Hspec.
-  destruct (common_ancestor s l) as [r| | | |]; [exists r; reflexivity| exfalso ..]; cbn in Hspec; try exact Hspec.
+  destruct (common_ancestor s l) as [r| | | | |]; [exists r; reflexivity| exfalso ..]; cbn in Hspec; try exact Hspec.
   all: apply Hspec.
   all: destruct s as [|r0 s0]; [inversion Hwf|].
   all: assert (Hg: forall t, In t l -> exists g, reach (r0 :: s0) t g /\ height g = 0 /\ g = last (r0 :: s0) r0).
@@ -257,4 +259,37 @@ Proof.
   all: destruct (Hg t0 (or_introl eq_refl)) as (g & Hg1 & Hg2 & Hg3).
   all: exists g; split; [|lia].
   all: intros t Ht; destruct (Hg t Ht) as (g' & Hg1' & _ & Hg3'); rewrite Hg3, <- Hg3'; exact Hg1'.
+Qed.
+
+(* ---------------- the endpoint never answers 500 (after the fixes 5ab472d / 5c09f8d) ---------------- *)
+Lemma all_some_map_nonempty {A B} (f : A -> option B) a l r : all_some (map f (a :: l)) = Some r -> r <> [].
+Proof. cbn. destruct (f a); [|discriminate]. destruct (all_some (map f l)); [|discriminate]. intros H. inversion H. discriminate. Qed.
+
+Lemma lockstep_panic n s : forall cur, lockstep n s cur = CPanic -> cur = [].
+Proof.
+  induction n as [|n IH]; intros cur H; cbn in H; [discriminate|].
+  destruct cur as [|x rest]; [reflexivity|]. exfalso.
+  destruct (all_eq (x :: rest)); [discriminate|].
+  destruct (all_some (map (fun r => prev_header s (id r)) (x :: rest))) as [nxt|] eqn:E; [|discriminate].
+  apply (all_some_map_nonempty _ _ _ _ E). apply IH. exact H.
+Qed.
+
+Lemma lockstep_not_bind n s : forall cur, lockstep n s cur <> CBind.
+Proof.
+  induction n as [|n IH]; intros cur; cbn; [discriminate|].
+  destruct cur as [|x rest]; [discriminate|]. destruct (all_eq (x :: rest)); [discriminate|].
+  destruct (all_some (map (fun r => prev_header s (id r)) (x :: rest))) as [nxt|]; [apply IH| discriminate].
+Qed.
+
+Theorem common_ancestor_endpoint_status s l : In (cres_status (common_ancestor_endpoint s l)) [200; 400; 404].
+Proof.
+  unfold common_ancestor_endpoint. destruct l as [|t l0]; [cbn; auto|].
+  unfold common_ancestor.
+  destruct (all_some (map (by_hash s) (t :: l0))) as [hs|] eqn:Ehs; [|cbn; auto].
+  destruct (min_height hs max_int32 <? 1); [cbn; auto|].
+  destruct (all_some (map (fun r => ancestor_on_height s (id r) (min_height hs max_int32 - 1)) hs)) as [cur|] eqn:Ecur; [|cbn; auto].
+  destruct (lockstep (Z.to_nat (min_height hs max_int32 - 1 + 1)) s cur) eqn:El; cbn; auto.
+  - exfalso. apply lockstep_panic in El. subst cur.
+    pose proof (all_some_map_nonempty _ _ _ _ Ehs) as Hne. destruct hs as [|h hs']; [contradiction|].
+    apply (all_some_map_nonempty _ _ _ _ Ecur). reflexivity.
 Qed.
